@@ -1,1 +1,185 @@
-From CM Require Import lib.Prelude model.BulkOps.
+(* C17  Bulk clean-up, delete and rename operations hit exactly their targets.
+   Statements only; every proof is `exact <lemma>`; Print Assumptions follows each.
+   Vocabulary (model/BulkOps.v part 2): on_signals g m = m with g applied to the signal list of every frame and nothing
+   else touched; set_frames / set_defines replace only the named components; names_unique = frame names unique in the
+   matrix and signal names unique within each frame; objects_distinct = no object listed twice (Python identity). *)
+From CM Require Import lib.Prelude model.Glob_c17 model.BulkOps
+  proofs.C17_glob proofs.C17_lib proofs.C17_ops proofs.C17_history.
+
+(* the glob matcher used by del_signal / glob_frames / glob_signals decides the declarative pattern relation
+   ('*' any run of characters, '?' exactly one, anything else itself) *)
+Theorem C17_glob_match_iff :
+  forall p n, glob_match p n = true <-> glob_rel p n.
+Proof. exact glob_match_iff. Qed.
+Print Assumptions C17_glob_match_iff.
+
+(* delete_zero_signals: in every frame exactly the signals of width 0 go - adjacent ones too -, order kept, all else equal *)
+Theorem C17_zero_signals_all_removed_nothing_else :
+  forall m, objects_distinct m ->
+    delete_zero_signals m = on_signals (filter (fun s => negb (bs_size s =? 0))) m.
+Proof. exact zero_signals_all_removed_nothing_else. Qed.
+Print Assumptions C17_zero_signals_all_removed_nothing_else.
+
+(* delete_obsolete_defines: each define map keeps, in order, exactly the definitions some object uses;
+   "used" = a frame / an ECU / a signal of ANY frame or a free signal carries the attribute *)
+Theorem C17_obsolete_defines_exactly_unused :
+  forall m,
+    delete_obsolete_defines m =
+    set_defines m (filter (used_by (bm_frames m) bf_attrs) (bm_fdefs m))
+                  (filter (used_by (bm_ecus m) be_attrs) (bm_edefs m))
+                  (filter (used_by (all_signals m) bs_attrs) (bm_sdefs m)).
+Proof. exact obsolete_defines_exactly_unused. Qed.
+Print Assumptions C17_obsolete_defines_exactly_unused.
+
+(* the same, element by element and without the boolean helpers *)
+Theorem C17_obsolete_defines_membership :
+  forall m k v,
+    let m' := delete_obsolete_defines m in
+    (In (k, v) (bm_fdefs m') <->
+       In (k, v) (bm_fdefs m) /\ exists f v', In f (bm_frames m) /\ In (k, v') (bf_attrs f)) /\
+    (In (k, v) (bm_edefs m') <->
+       In (k, v) (bm_edefs m) /\ exists e v', In e (bm_ecus m) /\ In (k, v') (be_attrs e)) /\
+    (In (k, v) (bm_sdefs m') <->
+       In (k, v) (bm_sdefs m) /\
+       exists s v', (In s (bm_free m) \/ exists f, In f (bm_frames m) /\ In s (bf_signals f)) /\ In (k, v') (bs_attrs s)) /\
+    bm_frames m' = bm_frames m /\ bm_ecus m' = bm_ecus m /\ bm_free m' = bm_free m.
+Proof. exact obsolete_defines_membership. Qed.
+Print Assumptions C17_obsolete_defines_membership.
+
+(* del_signal(pattern): in every frame exactly the signals whose name matches go *)
+Theorem C17_del_signal_exactly_matching :
+  forall pat m, objects_distinct m ->
+    del_signal_glob pat m = on_signals (filter (fun s => negb (glob_match pat (bs_name s)))) m.
+Proof. exact del_signal_exactly_matching. Qed.
+Print Assumptions C17_del_signal_exactly_matching.
+
+(* del_signal(Signal object): exactly that object *)
+Theorem C17_del_signal_object_exact :
+  forall i m, objects_distinct m ->
+    del_signal_obj i m = on_signals (filter (fun s => negb (bs_id s =? i))) m.
+Proof. exact del_signal_object_exact. Qed.
+Print Assumptions C17_del_signal_object_exact.
+
+(* what a rename old -> new makes of one name (spec_rename), said by concatenation only:
+   old = p* : p ++ rest becomes new ++ rest, names without prefix p stay;
+   old = *s : rest ++ s becomes rest ++ new, names without suffix s stay;
+   otherwise: the name equal to old becomes new, all others stay.   And nothing else fits that description. *)
+Theorem C17_rename_meaning :
+  forall old new name, renamed old new name (spec_rename old new name).
+Proof. exact rename_meaning. Qed.
+Print Assumptions C17_rename_meaning.
+
+Theorem C17_rename_determined :
+  forall old new name name', old <> [] -> renamed old new name name' -> name' = spec_rename old new name.
+Proof. exact rename_determined. Qed.
+Print Assumptions C17_rename_determined.
+
+(* rename_signal: in every frame every signal gets the specified name (so non-matching ones keep theirs), all else equal *)
+Theorem C17_rename_signal_prefix_suffix_exact :
+  forall old new m, signal_names_unique m -> old <> [] ->
+    rename_signal old new m =
+    Some (on_signals (map (fun s => set_sname s (spec_rename old new (bs_name s)))) m).
+Proof. exact rename_signal_prefix_suffix_exact. Qed.
+Print Assumptions C17_rename_signal_prefix_suffix_exact.
+
+(* rename_frame - of the code with fixes/C17_rename_frame_elif.patch applied (if / elif / elif) *)
+Theorem C17_rename_frame_prefix_suffix_exact :
+  forall old new m, old <> [] ->
+    rename_frame old new m =
+    Some (set_frames m (map (fun f => set_fname f (spec_rename old new (bf_name f))) (bm_frames m))).
+Proof. exact rename_frame_prefix_suffix_exact. Qed.
+Print Assumptions C17_rename_frame_prefix_suffix_exact.
+
+(* rename_frame as it is in /repo at cc0f6c0 (if / if / elif): false inside the property's envelope.
+   Witness: one frame named "a*", rename_frame("a*", "a") yields "a"; specified: "a*" (prefix "a" replaced by "a"). *)
+Theorem C17_rename_frame_prefix_suffix_exact_refuted :
+  exists m old new, names_unique m /\ objects_distinct m /\ old <> [] /\ new <> [] /\
+    rename_frame_unfixed old new m <>
+    Some (set_frames m (map (fun f => set_fname f (spec_rename old new (bf_name f))) (bm_frames m))).
+Proof. exact rename_frame_unfixed_refuted. Qed.
+Print Assumptions C17_rename_frame_prefix_suffix_exact_refuted.
+
+(* ... and true of it on every matrix whose frame names contain no '*' *)
+Theorem C17_rename_frame_prefix_suffix_exact_partial :
+  forall old new m, no_star_in_frame_names m -> old <> [] ->
+    rename_frame_unfixed old new m =
+    Some (set_frames m (map (fun f => set_fname f (spec_rename old new (bf_name f))) (bm_frames m))).
+Proof. exact rename_frame_unfixed_partial. Qed.
+Print Assumptions C17_rename_frame_prefix_suffix_exact_partial.
+
+(* del_frame(name): exactly the frame of that name goes *)
+Theorem C17_del_frame_by_name :
+  forall n m, frame_names_unique m -> objects_distinct m ->
+    del_frame_name n m = set_frames m (filter (fun f => negb (str_eqb (bf_name f) n)) (bm_frames m)).
+Proof. exact del_frame_by_name. Qed.
+Print Assumptions C17_del_frame_by_name.
+
+(* del_frame(Frame object): exactly that object; an object that is not in the matrix is refused (ValueError) *)
+Theorem C17_del_frame_object_exact :
+  forall i m, objects_distinct m ->
+    (existsb (fun f => bf_id f =? i) (bm_frames m) = true ->
+       del_frame_obj i m = Some (set_frames m (filter (fun f => negb (bf_id f =? i)) (bm_frames m)))) /\
+    (existsb (fun f => bf_id f =? i) (bm_frames m) = false -> del_frame_obj i m = None).
+Proof. exact del_frame_object_exact. Qed.
+Print Assumptions C17_del_frame_object_exact.
+
+(* del_signal_attributes / del_frame_attributes: exactly the named attributes go, from every signal of every frame
+   resp. every frame; keeps ks kv = true <-> the key of kv is not in ks *)
+Theorem C17_del_attributes_exact :
+  forall ks m,
+    del_signal_attributes ks m = on_signals (map (fun s => set_sattrs s (filter (keeps ks) (bs_attrs s)))) m /\
+    del_frame_attributes ks m = set_frames m (map (fun f => set_fattrs f (filter (keeps ks) (bf_attrs f))) (bm_frames m)).
+Proof. exact del_attributes_exact. Qed.
+Print Assumptions C17_del_attributes_exact.
+
+Theorem C17_keeps_iff :
+  forall ks kv, keeps ks kv = true <-> ~ In (fst kv) ks.
+Proof. exact keeps_iff. Qed.
+Print Assumptions C17_keeps_iff.
+
+(* histories: any sequence of the eight operations, as long as names stay unique along the way (history_ok),
+   has step by step exactly the specified effects *)
+Theorem C17_bulk_history_exact :
+  forall ops m, objects_distinct m -> history_ok ops m ->
+    run_ops ops m = Some (fold_left (fun acc o => spec_op o acc) ops m).
+Proof. exact bulk_history_exact. Qed.
+Print Assumptions C17_bulk_history_exact.
+
+(* the two defects repaired by 780371c and 9a3e727, reproduced on the model of the old loops *)
+Theorem C17_zero_signals_unfixed_refuted :
+  exists m, names_unique m /\ objects_distinct m /\
+    delete_zero_signals_unfixed m <> on_signals (filter (fun s => negb (bs_size s =? 0))) m.
+Proof. exact zero_signals_unfixed_refuted. Qed.
+Print Assumptions C17_zero_signals_unfixed_refuted.
+
+Theorem C17_obsolete_defines_unfixed_refuted :
+  exists m, names_unique m /\ objects_distinct m /\
+    delete_obsolete_defines_unfixed m <>
+    set_defines m (filter (used_by (bm_frames m) bf_attrs) (bm_fdefs m))
+                  (filter (used_by (bm_ecus m) be_attrs) (bm_edefs m))
+                  (filter (used_by (all_signals m) bs_attrs) (bm_sdefs m)).
+Proof. exact obsolete_defines_unfixed_refuted. Qed.
+Print Assumptions C17_obsolete_defines_unfixed_refuted.
+
+(* non-vacuity: two frames "ab" and "abc"; "ab" holds the adjacent zero-width signals "a","b" and signal "ab" carrying
+   attribute 7, "abc" holds signal "ab" without it; signal defines 7 (used in one frame only) and 8 (unused).
+   The history  delete_zero_signals; rename_signal("a*","x"); rename_frame("*c","y"); del_frame("ab");
+   delete_obsolete_defines  satisfies the hypotheses and computes to the expected matrix. *)
+Example C17_example :
+  let s := fun i n size at_ => mkBSignal i n size at_ 0 in
+  let m := mkBMatrix [mkBFrame 1 [97; 98] [] 0 [s 1 [97] 0 []; s 2 [98] 0 []; s 3 [97; 98] 8 [(7, 1)]];
+                      mkBFrame 2 [97; 98; 99] [] 0 [s 4 [97; 98] 8 []]] [] [] [] [] [(7, 70); (8, 80)] in
+  let ops := [OpDeleteZero; OpRenameSignal [97; 42] [120]; OpRenameFrame [42; 99] [121]; OpDelFrame [97; 98];
+              OpDeleteObsoleteDefines] in
+  objects_distinct m /\ history_ok ops m /\
+  run_ops ops m = Some (mkBMatrix [mkBFrame 2 [97; 98; 121] [] 0 [s 4 [120; 98] 8 []]] [] [] [] [] []) /\
+  run_ops (firstn 3 ops) m =
+    Some (mkBMatrix [mkBFrame 1 [97; 98] [] 0 [s 3 [120; 98] 8 [(7, 1)]];
+                     mkBFrame 2 [97; 98; 121] [] 0 [s 4 [120; 98] 8 []]] [] [] [] [] [(7, 70); (8, 80)]).
+Proof.
+  cbv zeta. split; [|split; [|split]].
+  - split; repeat constructor; cbn; intuition discriminate.
+  - cbn [history_ok]. repeat split; try discriminate; vm_compute; repeat constructor; cbn; intuition discriminate.
+  - vm_compute. reflexivity.
+  - vm_compute. reflexivity.
+Qed.
